@@ -62,6 +62,12 @@ class SEv:
         return self.name + d + s
 
 
+def strip_ref(v):
+    while isinstance(v, tuple) and v and v[0] in ('ref', 'rawptr') and len(v) > 2 and v[2] is not None:
+        v = v[2]
+    return v
+
+
 def _has_field(pl, f):
     while isinstance(pl, tuple) and pl and pl[0] in ('pfield', 'pdown'):
         if pl[0] == 'pfield' and pl[2] == f:
@@ -215,6 +221,13 @@ def project(path):
             a = ev.args
             if ev.val in bulk:
                 continue  # reported at the extend() that consumes it
+            if n == 'std::mem::take' and len(a) == 1 and ci_field_ref(a[0]) == 'queue' and any(
+                    (x.kind == 'drop' and x.val == ev.val) or (x.kind == 'call' and x.name == 'std::mem::drop' and x.args and x.args[-1] == ev.val)
+                    for x in path.events if x.idx > ev.idx):
+                # `let q = mem::take(&mut internal.queue); drop(internal); drop(q)`: the buffer is emptied here, its values are
+                # destroyed further down this path (after the unlock) - clear() with the destructors moved out of the lock
+                add('Q.clear', ev, args=(), res=ev.val, via='mem::take+drop')
+                continue
             if ev.val in drain_loops:
                 continue  # `for v in queue.drain(..)`: each next() below is one pop_front
             if n == 'std::iter::Iterator::next' and a:
@@ -319,6 +332,17 @@ def project(path):
                 else:
                     add('SIG.assume_init', ev, args=(sigref,), res=ev.val, derived=True)
                     add('FUT.read_local_data', ev, args=(sigref,), res=ev.val, derived=True, via='signal')
+                continue
+            if n == 'std::mem::replace' and len(a) == 2 and a[0][0] in ('ref', 'rawptr') and isinstance(a[0][1], tuple) and a[0][1][0] == 'pfield' \
+                    and a[0][1][2] == 'waker' and _has_field(a[0][1][1], 'sig') and a[1][0] == 'agg' and a[1][1].endswith('KanalWaker') \
+                    and a[1][2] == 'Async' and a[1][3] and _has_field_sibling(path):
+                # `mem::replace(&mut self.sig.waker, KanalWaker::Async(w))` in a future: register_waker written out (the old waker is
+                # handed back so that it can be dropped after the unlock); `w` may be a clone of cx.waker() made before the lock
+                add('CALL', ev, callee=n, args=a, res=ev.val)
+                w = a[1][3][0]
+                if w[0] == 'call' and w[2] == 'std::clone::Clone::clone' and w[3]:
+                    w = strip_ref(w[3][0])
+                add('SIG.register_waker', ev, args=(('ref', a[0][1][1], None), w), res=ev.val, derived=True)
                 continue
             if n in SLOT_FUNCS:
                 add(SLOT_FUNCS[n], ev, args=a, res=ev.val)
@@ -456,7 +480,94 @@ def project(path):
         out.append(SEv('PANIC', len(out), cur(), None, {}))
     elif path.end == 'unreachable':
         out.append(SEv('UNREACHABLE', len(out), cur(), None, {}))
+    _pair_split_recv(out)
     return out
+
+
+def waker_kept(evs, before, sec=None):
+    """the future's own signal already holds a waker that wakes the task polling now: a branch `stored.will_wake(cx.waker())` == true
+    on the Async payload of the future's `sig.waker`, observed before event index `before` (registering again would store an
+    equivalent waker)"""
+    for e in evs:
+        if e.idx >= before:
+            break
+        if e.name == 'BR' and e.data['label'] == 'waker_same' and e.data['outcome'] == 'T':
+            v = e.data['val']
+            while v[0] == 'un':
+                v = v[2]
+            if v[0] != 'call' or len(v[3]) != 2:
+                continue
+            stored, new = v[3]
+            if contains_field(stored, 'waker') and contains_field(stored, 'sig') and contains_call(new, 'std::task::Context::waker'):
+                return True
+    return False
+
+
+def contains_field(v, f, depth=0):
+    if not isinstance(v, tuple) or depth > 40:
+        return False
+    if v and v[0] in ('pfield', 'field') and len(v) > 2 and v[2] == f:
+        return True
+    return any(contains_field(x, f, depth + 1) for x in v if isinstance(x, tuple))
+
+
+def contains_call(v, name, depth=0):
+    if not isinstance(v, tuple) or depth > 40:
+        return False
+    if v and v[0] == 'call' and v[2] == name:
+        return True
+    return any(contains_call(x, name, depth + 1) for x in v if isinstance(x, tuple))
+
+
+def _pair_split_recv(out):
+    """`SignalTerminator::recv` (read the payload, then wake the owner with UNLOCKED) written as two steps so that the wake can
+    run after the channel lock was released (`queue.push_back(p.take_value()); drop(internal); p.finish_recv()`): a read of the
+    popped sender's payload - through Signal::assume_init or KanalPtr::read on that signal - that is followed on the same path
+    by exactly one `Signal::wake(that signal, UNLOCKED)` is presented as SIGRECV (at the read, which is where the value is
+    obtained) plus SIGFIN (at the wake).  A read without its wake stays what it is, and the rules report a sender that is never
+    completed."""
+    def term_of(ptrv):
+        # ptrv: the raw pointer `term.0` (field 0 of a next_send payload), possibly behind a ref/deref
+        v = ptrv
+        for _ in range(4):
+            if isinstance(v, tuple) and v and v[0] in ('ref', 'rawptr') and isinstance(v[1], tuple) and v[1] and v[1][0] == 'deref':
+                v = v[1][1]
+            else:
+                break
+        if isinstance(v, tuple) and v and v[0] == 'field' and v[2] == '0' and isinstance(v[1], tuple) and v[1] and v[1][0] == 'field' \
+                and v[1][2] == '0' and v[1][1][0] == 'downcast' and v[1][1][2] == 'Some':
+            return v[1], v
+        return None, None
+    nexts = {}
+    for e in out:
+        if e.name == 'NEXT_SEND':
+            nexts[('field', ('downcast', e.data['res'], 'Some'), '0')] = e
+    if not nexts:
+        return
+    for e in out:
+        ptr = None
+        if e.name == 'SIG.assume_init' and e.data.get('args') and not e.data.get('derived'):
+            ptr = e.data['args'][0]
+        elif e.name == 'CALL' and e.data.get('callee') == 'pointer::KanalPtr::read' and e.data.get('args'):
+            a0 = e.data['args'][0]
+            if a0[0] in ('ref', 'rawptr') and isinstance(a0[1], tuple) and a0[1][0] == 'pfield' and a0[1][2] == 'ptr' and a0[1][1][0] == 'deref':
+                ptr = a0[1][1][1]
+        if ptr is None:
+            continue
+        term, rawp = term_of(ptr)
+        if term is None or term not in nexts:
+            continue
+        wakes = [w for w in out if w.name == 'SIGNAL.wake' and w.data.get('args') and term_of(w.data['args'][0])[0] == term]
+        if len(wakes) != 1 or wakes[0].idx < e.idx:
+            continue
+        w = wakes[0]
+        fin = w.data['args'][1] if len(w.data['args']) > 1 else None
+        if not (fin is not None and fin[0] == 'const' and str(fin[2]) == '0'):
+            continue
+        e.data = {'args': (term,), 'res': e.data.get('res'), 'split': True, 'via': e.name, 'fin_idx': w.idx}
+        e.name = 'SIGRECV'
+        w.data = {'args': (term,), 'res': w.data.get('res'), 'split': True}
+        w.name = 'SIGFIN'
 
 
 def contains(v, tok, depth=0):
